@@ -65,6 +65,14 @@ CLAIMED = {
   "Deductive proof of totality and progress of the lexer: for every source string, next() and every scanning helper it reaches (read, peek, match, matchOneOf, matchWhile, matchWithUnderscores, matchIdentTail, nonWhiteRemaining, whitespace, lineComment, spanComment, rawString, quotedString, doesc, number, identifier, Next) never index or slice out of range (527 obligations), keep 0 <= position <= len(source), report Item.Pos = starting position, return Eof exactly when called at the end of the source and otherwise strictly advance the position - so token positions strictly increase and scanning terminates; every loop has a proved variant.",
   "Function-valued parameters (IsDigit, IsHexDigit, isIdentChar) are modelled as pure predicates that are false for 0 and each call site is obliged to pass such a function; the lexer's keyword callback and intern.String/strings.ReplaceAll are assumed effect-free. Sources are assumed shorter than 2^31 bytes (Item.Pos is int32). NOT covered: the parser (recursive descent reporting errors by panic), the 'tokens tile the source' text equality for processed tokens, Ahead/AheadSkip buffering.",
   "DESIGN.md §4 C32"),
+ "C05": (
+  "Deductive proof about repair.search, the function that picks the state a damaged database is cut back to: for every sequence of state offsets the scanner can deliver (modelled by an uninterpreted sequence scanOff(k) handed out incrementally, never shrinking) and every outcome of the per-state check (uninterpreted predicate goodAt), search never indexes outside the offsets found - also when there are none - , returns (0,0,nil) when nothing is good, and otherwise returns a state that passed the check together with its own offset, whose more recent neighbour was checked and is bad (the result of the exponential + binary search under the documented assumption that good and bad states are not interleaved); both loops have invariants, the binary search a variant, no arithmetic overflow (skip doubling).",
+  "Scope: the selection logic of search only. The scanner goroutine, getUpTo's locking, check/checkState (checksum verification of metadata, btree nodes and records), fix/truncate, readTail and MmapStor's trailing zero stripping are assumed or not covered; crash points and file contents are not enumerated (the property's quantifier over crash points is not expressible as a contract). The deferred scnr.close() is executed at normal exits only. One genuine defect found by the bounds obligation was fixed (Repair crashed with index out of range [-1] on a file without any state).",
+  "DESIGN.md §0.3 C05"),
+ "C19": (
+  "Deductive proof of the state navigation used by historical reads: (1) Stor.LastOffset/FirstOffset (exact 64-bit bit-vector arithmetic, loops with invariants and variants): a non-zero result is an occurrence of the marker that lies completely below / at-or-after the given offset, inside one mapped chunk, with all index and slice bounds in range, plus the lemma relating chunk/position to the shift/mask addressing of Data; (2) over readState's result named by uninterpreted functions of the offset: stateAsof returns a valid state whose Off is the offset it was read from and whose time is at or before the requested time unless the search reached the start of the store (then it is the earliest state); NextState/PrevState return nil or a valid state strictly after / before the given offset, with its own offset; readState only accepts records whose metadata offsets lie below the record.",
+  "Scope: per-call. readState's determinism (the store is append-only) is the assumption behind the 'defines' clause; the byte-level layout written by writeState vs read by readState, cksum, meta.ReadMeta, the stateCache and ReadTran.Asof are assumed or not covered; run-time panic freedom of the db19 functions is not claimed (mode 'nosafety': a stray marker within 38 bytes of a chunk end would make readState slice out of range - noted, not reachable from valid stores). bytes.Index/LastIndex are assumed library contracts (soundness half). One genuine defect found by stateAsof#post.consistent was fixed (Off=0 for times before the first state).",
+  "DESIGN.md §0.3 C19"),
  "C08": (
   "Deductive proof of the two foreign key refusal decisions over an abstraction of the index lookups: if UpdateTran.fkeyDeleteBlock returns normally then EVERY foreign key that points at the index either cascades the kind of change being made (delete / key update) or has no referencing source rows (loop invariant over FkToHere, quantified post-condition taken from the property statement); if fkeyOutputBlock returns normally then the index has no foreign key, or the key value is empty, or the target row exists.",
   "Scope: the block/allow decision logic only. fkeyDeleteExists/fkeyOutputExists (the index range lookups, rangeEnd) are abstracted by uninterpreted predicates through assumed contracts; Spec.Key/Trunc/Encodes, ixkey.Encode, Meta.GetRoSchema are assumed effect-free; run-time panic freedom is not claimed here (contract mode 'nosafety': bounds depend on schema metadata consistency, C21). NOT covered: that Delete passes CascadeDeletes and update passes CascadeUpdates at the two call sites (functions with defer/recover, outside the subset), the cascade loops (fkeyDeleteCascade/fkeyUpdateCascade), rangeEnd, createFkeys/linkFkeys, and the committed-state invariant under concurrency (C01/C07). One genuine defect found by the loop invariant obligation was fixed (cascade update let referenced rows be deleted).",
